@@ -1223,23 +1223,43 @@ pub fn generate(seed: u64, knobs: &Knobs) -> C10Scenario {
                     continue;
                 }
                 let path = rh.pick(&dangling).clone();
-                let s = WSource {
-                    path: path.clone(),
-                    body_index: rh.below(corpus::BODIES.len()),
-                    version: 0,
-                    requires: Vec::new(),
-                    broken: false,
-                    id: world.next_id,
-                    use_alias: false,
-                    bare: false,
-                };
-                world.next_id += 1;
-                let body = world.render(&s);
-                world.sources.push(s);
-                new_ops.push(Op::Add {
-                    path,
-                    body: Body::Text(body),
-                });
+                // ... by renaming another file into its place (the watcher reports a rename
+                // as two removals followed by a new collection of work) ...
+                let movable: Vec<usize> = (0..world.sources.len())
+                    .filter(|i| {
+                        let s = &world.sources[*i];
+                        s.requires.is_empty()
+                            && !s.use_alias
+                            && !s.broken
+                            && !protected.contains(&s.path)
+                            && !is_required(&world, &s.path)
+                    })
+                    .collect();
+                if sim && !movable.is_empty() && rh.chance(1, 2) {
+                    let i = *rh.pick(&movable);
+                    let from = world.sources[i].path.clone();
+                    world.sources[i].path = path.clone();
+                    new_ops.push(Op::Rename { from, to: path });
+                } else {
+                    // ... or by being written again
+                    let s = WSource {
+                        path: path.clone(),
+                        body_index: rh.below(corpus::BODIES.len()),
+                        version: 0,
+                        requires: Vec::new(),
+                        broken: false,
+                        id: world.next_id,
+                        use_alias: false,
+                        bare: false,
+                    };
+                    world.next_id += 1;
+                    let body = world.render(&s);
+                    world.sources.push(s);
+                    new_ops.push(Op::Add {
+                        path,
+                        body: Body::Text(body),
+                    });
+                }
             }
             90..=93 => {
                 // delete and re-create before the next pass
